@@ -546,7 +546,7 @@ impl Prop for C08 {
         "C08"
     }
     fn rule(&self) -> &'static str {
-        "metamorphic over histories: 3 TCP flows (two with adjacent source ports, one differing from the first only in the destination address; data segments that acknowledge ANOTHER flow's cookie+1) each with its own byte stream (protocol requests, two requests back to back, garbage) delivered in generated chunks, interleaved in generated order with wrong-ack data segments, SYNs non-data TCP segments whose seq/ack are another flow's cookie, traffic sharing the flows' IP or MAC (ARP / NS / echo / SYN / UDP from the same IP with another MAC and vice versa), ICMP / ICMPv6 error messages quoting the responder's own SYN-ACK or UDP answer to the client (all error types and codes), answerable UDP datagrams from the flows' client with fixed ports, and unrelated noise (ARP, ICMP, ND, UDP application traffic, raw and lying-header frames, SYN floods on other ports). For EVERY position p of the history: the reply recorded at p must equal (after masking HTTP Date / SMB times) the reply to the same frame when the connection table is reset and only the accepted data segments of p's own 4-tuple that precede p are replayed. Crowds: a connection whose first segment was a complete request gets the same answer to its second segment (acknowledging the first answer or not) with 1100 / 4200 / 9000 / 66000 other connections validated in between as with none. Directed: two distinct 4-tuples with equal cookie found by a birthday search through the responder's cookie function. Non-trivial = at p another flow has accepted data and p is answered or is a data segment; distinct by case hash."
+        "metamorphic over histories: 3 TCP flows (two with adjacent source ports, one differing from the first only in the destination address; data segments that acknowledge ANOTHER flow's cookie+1) each with its own byte stream (protocol requests, two requests back to back, garbage) delivered in generated chunks, interleaved in generated order with wrong-ack data segments, SYNs non-data TCP segments whose seq/ack are another flow's cookie, traffic sharing the flows' IP or MAC (ARP / NS / echo / SYN / UDP from the same IP with another MAC and vice versa), ICMP / ICMPv6 error messages quoting the responder's own SYN-ACK or UDP answer to the client (all error types and codes), answerable UDP datagrams from the flows' client with fixed ports, and unrelated noise (ARP, ICMP, ND, UDP application traffic, raw and lying-header frames, SYN floods on other ports). For EVERY position p of the history: the reply recorded at p must equal (after masking HTTP Date / SMB times) the reply to the same frame when the connection table is reset and only the accepted data segments of p's own 4-tuple that precede p are replayed. Crowds: a connection whose first segment was a complete request gets the same answer to its second segment (acknowledging the first answer or not) with 1100 / 4200 / 9000 / 66000 other connections validated in between as with none. Directed: two distinct 4-tuples with equal cookie found by a birthday search through the responder's cookie function. Non-trivial = at p another flow has accepted data and p is answered or is a data segment; distinct by case hash. Shadow traffic (vf/shadow.rs): three cases in ten process, before every frame of the case, a sibling of that frame whose result is discarded — the same frame again, or one tuple element (source / destination port, source / destination address, source MAC), one payload bit or the payload length changed; TCP conversations are shadowed whole on a sibling flow validated with its own cookie; sound by the statement of C08, cases whose own flows meet a shadow tuple are excluded and counted. Stream `fresh`: a UDP datagram or SYN + first data segment carrying a request of every protocol generator, preceded by shadow traffic, is answered by this worker process (which has seen thousands of cases) and by the same binary started for this one exchange (`mverif exec-frames`): the normalised replies must agree frame by frame — the only differential here whose two sides do not share process-wide state."
     }
     fn run(&self, ctx: &mut RunCtx) {
         let n = ctx.share(ctx.tier.n(600_000, 6_000_000));
